@@ -31,12 +31,21 @@ Proof.
   unfold good, tr, nx. cbn [fst snd app length cells map d_cell]. unfold cells in I1. rewrite I1, I2. cbn [seq]. split; [reflexivity | lia].
 Qed.
 
+Lemma nothing_good {A} (x : A) n : good n (x, [], n).
+Proof. split; cbn; [reflexivity | lia]. Qed.
+
+Lemma protect_refused_good c k n : good n (protect_refused c k n).
+Proof.
+  unfold protect_refused. destruct k; [apply nothing_good|].
+  destruct ((c =? 1) || (c =? 10)); [|apply nothing_good]. split; cbn; [reflexivity | lia].
+Qed.
+
 Lemma exec_good o n : good n (exec o n).
 Proof.
-  destruct o as [c pass msg sk enc | c k rcpt msg sk enc | c pass npk].
-  - destruct sk, enc; cbn; split; cbn; try reflexivity; lia.
-  - destruct sk, enc, k; cbn; split; cbn; try reflexivity; lia.
-  - apply protect_loop_good.
+  destruct o as [c pass msg sk enc | c k rcpt msg sk enc | c pass npk]; cbn [exec].
+  - destruct (sk_fits c sk); [|apply nothing_good]. destruct sk, enc; cbn; split; cbn; try reflexivity; lia.
+  - destruct (sk_fits c sk); [|apply nothing_good]. destruct sk, enc, k; cbn; split; cbn; try reflexivity; lia.
+  - destruct (can_protect c); [apply protect_loop_good | apply protect_refused_good].
 Qed.
 
 Lemma traces_cons o r n : traces (o :: r) n = tr (exec o n) ++ traces r (nx (exec o n)).
@@ -102,12 +111,20 @@ Proof.
   cbn [app forallb]. rewrite IH. unfold size_ok, want_size. cbn [d_purpose d_size]. rewrite !Z.eqb_refl. reflexivity.
 Qed.
 
+Lemma protect_refused_sizes c k n : forallb (size_ok c) (tr (protect_refused c k n)) = true.
+Proof.
+  unfold protect_refused. destruct k; [reflexivity|]. destruct ((c =? 1) || (c =? 10)); [|reflexivity].
+  cbn. unfold size_ok, want_size. cbn [d_purpose d_size]. rewrite !Z.eqb_refl. reflexivity.
+Qed.
+
 Lemma draw_sizes o n : forallb (size_ok (cipher_of o)) (tr (exec o n)) = true.
 Proof.
-  destruct o as [c pass msg sk enc | c k rcpt msg sk enc | c pass npk].
-  - destruct sk, enc; cbn; unfold size_ok, want_size; cbn [d_purpose d_size]; rewrite ?Z.eqb_refl; reflexivity.
-  - destruct sk, enc, k; cbn; unfold size_ok, want_size; cbn [d_purpose d_size]; rewrite ?Z.eqb_refl; reflexivity.
-  - apply protect_loop_sizes.
+  destruct o as [c pass msg sk enc | c k rcpt msg sk enc | c pass npk]; cbn [exec cipher_of].
+  - destruct (sk_fits c sk); [|reflexivity].
+    destruct sk, enc; cbn; unfold size_ok, want_size; cbn [d_purpose d_size]; rewrite ?Z.eqb_refl; reflexivity.
+  - destruct (sk_fits c sk); [|reflexivity].
+    destruct sk, enc, k; cbn; unfold size_ok, want_size; cbn [d_purpose d_size]; rewrite ?Z.eqb_refl; reflexivity.
+  - destruct (can_protect c); [apply protect_loop_sizes | apply protect_refused_sizes].
 Qed.
 
 Lemma draw_sizes_run ops : forall n, Forall2 (fun o r => forallb (size_ok (cipher_of o)) (snd r) = true) ops (fst (run ops n)).
@@ -130,10 +147,12 @@ Qed.
 Lemma exec_indep o1 o2 n : shape_of o1 = shape_of o2 -> tr (exec o1 n) = tr (exec o2 n) /\ nx (exec o1 n) = nx (exec o2 n).
 Proof.
   destruct o1 as [c1 p1 m1 s1 e1 | c1 k1 r1 m1 s1 e1 | c1 p1 n1]; destruct o2 as [c2 p2 m2 s2 e2 | c2 k2 r2 m2 s2 e2 | c2 p2 n2];
-    cbn [shape_of]; intros H; try discriminate; inversion H; subst.
-  - destruct s1, s2; try discriminate; destruct e2; split; reflexivity.
-  - destruct s1, s2; try discriminate; destruct e2, k2; split; reflexivity.
-  - apply protect_loop_indep.
+    cbn [shape_of]; intros H; try discriminate.
+  - injection H as Hc Hs Hf He. subst c2 e2. cbn [exec]. rewrite Hf. destruct (sk_fits c1 s2); [|split; reflexivity].
+    destruct s1, s2; try discriminate; destruct e1; split; reflexivity.
+  - injection H as Hc Hk Hs Hf He. subst c2 k2 e2. cbn [exec]. rewrite Hf. destruct (sk_fits c1 s2); [|split; reflexivity].
+    destruct s1, s2; try discriminate; destruct e1, k1; split; reflexivity.
+  - injection H as Hc Hn. subst c2 n2. cbn [exec]. destruct (can_protect c1); [apply protect_loop_indep | split; reflexivity].
 Qed.
 
 Lemma draws_independent_of_message ops1 : forall ops2 n, map shape_of ops1 = map shape_of ops2 ->
@@ -166,20 +185,26 @@ Proof.
   cbn [map concat exposed app d_cell]. intros [H | [H | H]]; [right; left; exact H | left; exact H | right; right; apply IH; exact H].
 Qed.
 
+(* a refused protect has no output at all, and what it drew before it was refused (an IV and a salt) is not secret *)
+Lemma protect_refused_outs c k n : outs (protect_refused c k n) = [].
+Proof. unfold protect_refused. destruct k; [reflexivity|]. destruct ((c =? 1) || (c =? 10)); reflexivity. Qed.
+Lemma protect_refused_no_secret c k n : secret_cells (tr (protect_refused c k n)) = [].
+Proof. unfold protect_refused. destruct k; [reflexivity|]. destruct ((c =? 1) || (c =? 10)); reflexivity. Qed.
+
 Lemma exec_exposed_own o n x : In x (exposed_all (outs (exec o n))) -> In x (cells (tr (exec o n))).
 Proof.
-  destruct o as [c pass msg sk enc | c k rcpt msg sk enc | c pass npk].
-  - destruct sk, enc; cbn; tauto.
-  - destruct sk, enc, k; cbn; tauto.
-  - apply protect_loop_exposed_own.
+  destruct o as [c pass msg sk enc | c k rcpt msg sk enc | c pass npk]; cbn [exec].
+  - destruct (sk_fits c sk); [|intros []]. destruct sk, enc; cbn; tauto.
+  - destruct (sk_fits c sk); [|intros []]. destruct sk, enc, k; cbn; tauto.
+  - destruct (can_protect c); [apply protect_loop_exposed_own | rewrite protect_refused_outs; intros []].
 Qed.
 
 Lemma exec_secret_hidden o n x : In x (secret_cells (tr (exec o n))) -> In x (exposed_all (outs (exec o n))) -> False.
 Proof.
-  destruct o as [c pass msg sk enc | c k rcpt msg sk enc | c pass npk].
-  - destruct sk, enc; cbn; intros H1 H2; intuition lia.
-  - destruct sk, enc, k; cbn; intros H1 H2; intuition lia.
-  - cbn [exec]. rewrite protect_loop_no_secret. intros [].
+  destruct o as [c pass msg sk enc | c k rcpt msg sk enc | c pass npk]; cbn [exec].
+  - destruct (sk_fits c sk); [|intros []]. destruct sk, enc; cbn; intros H1 H2; intuition lia.
+  - destruct (sk_fits c sk); [|intros []]. destruct sk, enc, k; cbn; intros H1 H2; intuition lia.
+  - destruct (can_protect c); [rewrite protect_loop_no_secret | rewrite protect_refused_no_secret]; intros [].
 Qed.
 
 Lemma secret_cells_app a b : secret_cells (a ++ b) = secret_cells a ++ secret_cells b.
@@ -216,6 +241,53 @@ Qed.
 Lemma salt_is_exposed c pass msg n : In (S n) (exposed_all (outs (exec (EncPass c pass msg None false) n))).
 Proof. cbn. left. reflexivity. Qed.
 
+(* ---------- a refused operation draws nothing (repair 29ef9ad for the passphrase path) ---------- *)
+Lemma refused_key_draws_nothing c pass k rcpt msg b enc n : Z.of_nat (length b) <> key_octets c ->
+  exec (EncPass c pass msg (Some b) enc) n = ([], [], n) /\ exec (EncKey c k rcpt msg (Some b) enc) n = ([], [], n).
+Proof.
+  intros H. cbn [exec sk_fits]. destruct (Z.eqb_spec (Z.of_nat (length b)) (key_octets c)) as [E|_]; [contradiction|]. split; reflexivity.
+Qed.
+(* ... and an operation that is carried out is exactly the one with a fitting (or no) supplied key: it has an output *)
+Lemma pass_accepted_iff_output c pass msg sk enc n : sk_fits c sk = true <-> outs (exec (EncPass c pass msg sk enc) n) <> [].
+Proof.
+  cbn [exec]. destruct (sk_fits c sk); [|split; [discriminate | intros H; exfalso; apply H; reflexivity]].
+  split; [intros _ | intros _; reflexivity]. destruct sk, enc; cbn; discriminate.
+Qed.
+Lemma key_accepted_iff_output c k rcpt msg sk enc n : sk_fits c sk = true <-> outs (exec (EncKey c k rcpt msg sk enc) n) <> [].
+Proof.
+  cbn [exec]. destruct (sk_fits c sk); [|split; [discriminate | intros H; exfalso; apply H; reflexivity]].
+  split; [intros _ | intros _; reflexivity]. destruct sk, enc, k; cbn; discriminate.
+Qed.
+(* the rule before the repair drew the salt for a supplied key of any length *)
+Lemma refused_key_old_refuted : exists c pass msg b enc n, Z.of_nat (length b) <> key_octets c /\
+  tr (exec_pass_old c pass msg (Some b) enc n) <> [].
+Proof. exists 7, [1], [2], [9; 9; 9], false, O. split; [cbn; discriminate | cbn; discriminate]. Qed.
+
+(* a refused protect (repair a3ce830 leaves the draws where they were): no output; IDEA / Twofish256 have drawn the IV and
+   the salt of the first key packet, anything else nothing *)
+Lemma refused_protect_trace c pass k n : can_protect c = false ->
+  outs (exec (Protect c pass k) n) = [] /\
+  (tr (exec (Protect c pass k) n) = [] \/
+   tr (exec (Protect c pass k) n) = [ {| d_purpose := PIV; d_size := blk_octets c; d_cell := n |}; {| d_purpose := PSalt; d_size := 8; d_cell := S n |} ]).
+Proof.
+  intros H. cbn [exec]. rewrite H. split; [apply protect_refused_outs|].
+  unfold protect_refused. destruct k; [left; reflexivity|]. destruct ((c =? 1) || (c =? 10)); [right | left]; reflexivity.
+Qed.
+(* an accepted protect draws, per key packet and in this order, an IV of the block size and a salt of 8 octets *)
+Fixpoint protect_trace (c : Z) (k n : nat) : list drawrec :=
+  match k with
+  | O => []
+  | S k' => {| d_purpose := PIV; d_size := blk_octets c; d_cell := n |} :: {| d_purpose := PSalt; d_size := 8; d_cell := S n |} :: protect_trace c k' (S (S n))
+  end.
+Lemma protect_loop_trace c pass k : forall i n, tr (protect_loop c pass k i n) = protect_trace c k n.
+Proof.
+  induction k as [|k IH]; intros i n; [reflexivity|].
+  cbn [protect_loop protect_trace]. unfold draw. specialize (IH (S i) (S (S n))).
+  destruct (protect_loop c pass k (S i) (S (S n))) as [[o t3] n3]. unfold tr in *. cbn [fst snd] in *. rewrite <- IH. reflexivity.
+Qed.
+Lemma accepted_protect_trace c pass k n : can_protect c = true -> tr (exec (Protect c pass k) n) = protect_trace c k n.
+Proof. intros H. cbn [exec]. rewrite H. apply protect_loop_trace. Qed.
+
 (* ---------- supplied_key_not_redrawn ---------- *)
 Definition sk_of (o : fop) : option (option bytes) :=
   match o with EncPass _ _ _ sk _ => Some sk | EncKey _ _ _ _ sk _ => Some sk | Protect _ _ _ => None end.
@@ -227,8 +299,8 @@ Lemma supplied_key_not_redrawn o n b : sk_of o = Some (Some b) ->
   given_all (outs (exec o n)) = [].
 Proof.
   destruct o as [c pass msg sk enc | c k rcpt msg sk enc | c pass npk]; cbn [sk_of]; intros H; inversion H; subst.
-  - destruct enc; cbn; auto.
-  - destruct enc, k; cbn; auto.
+  - cbn [exec sk_fits]. destruct (Z.of_nat (length b) =? key_octets c); [destruct enc; cbn; auto | cbn; auto].
+  - cbn [exec sk_fits]. destruct (Z.of_nat (length b) =? key_octets c); [destruct enc, k; cbn; auto | cbn; auto].
 Qed.
 
 Lemma absent_key_drawn_first o n : sk_of o = Some None ->
